@@ -314,6 +314,12 @@ func ParseTCPHeader(b []byte) (TCPHeader, error) {
 		body = uint64(ln)
 	}
 	h.FrameLen = uint64(off) + 1 + uint64(tkl) + body
+	if h.FrameLen > 0xffffffff {
+		// Representation limit of the API under test, not of the RFC: the frame length is
+		// reported in 32 bits, so a frame of 4 GiB or more cannot be described and must be
+		// refused (never wrapped).
+		return h, ErrTooLong
+	}
 	if len(b) < off+1 {
 		return h, ErrShort
 	}
